@@ -25,7 +25,9 @@ class C07(Prop, ScriptGen):
     title = 'Script verification is total, contained and side-effect free on any input'
     lean_targets = ['BtcVerif.Props.C07']
     table_groups = ['Opcodes']
-    theorems = []
+    theorems = ['BtcVerif.C07.' + t for t in (
+        'verify_total', 'only_known_findings', 'verify_contained', 'error_state_limits', 'eval_contained',
+        'eval_state_limits')]
     anchors = [('bitcoin/core/scripteval.py', f) for f in (
         'EvalScript', 'VerifyScript', '_EvalScript', '_CheckMultiSig', '_CheckSig', 'EvalScriptError',
         'MissingOpArgumentsError', 'ArgumentsInvalidError', 'VerifyOpFailedError')] + \
